@@ -13,6 +13,7 @@ import (
 	"mime/multipart"
 	"net"
 	"net/http"
+	"net/http/httptest"
 	"os"
 	"path/filepath"
 	"sort"
@@ -21,6 +22,9 @@ import (
 	"testing"
 	"time"
 
+	"crypto/tls"
+
+	qhttp3 "github.com/quic-go/quic-go/http3"
 	"golang.org/x/net/http2"
 	"golang.org/x/net/http2/hpack"
 
@@ -264,6 +268,69 @@ func (p *c01FaultPeer) serveH2(c net.Conn) {
 	}
 }
 
+// ---- HTTP/3: a quic-go http3 server whose handler, when a fault is pending, reads `after` bytes
+// of the request body and then closes the whole QUIC connection (the client's cached connection
+// dies under the request); otherwise it accepts the request.
+type c01H3FaultPeer struct {
+	c01FaultPeer
+	addr string
+	stop func()
+}
+
+func c01StartH3FaultPeer(t testing.TB) *c01H3FaultPeer {
+	p := &c01H3FaultPeer{}
+	p.proto = "h3"
+	ts := httptest.NewTLSServer(http.NotFoundHandler())
+	certs := ts.TLS.Certificates
+	ts.Close()
+	pc, err := net.ListenPacket("udp", "127.0.0.1:0")
+	if err != nil {
+		t.Fatalf("udp listen: %v", err)
+	}
+	h := http.HandlerFunc(func(w http.ResponseWriter, r *http.Request) {
+		if r.URL.Path == "/prime" {
+			w.WriteHeader(200)
+			return
+		}
+		if f := p.nextFault(); f != nil {
+			n, _ := io.ReadFull(r.Body, make([]byte, f.after))
+			p.mu.Lock()
+			p.fired = append(p.fired, c01Fired{kind: f.kind, frames: n, bytes: n})
+			p.mu.Unlock()
+			if hj, ok := w.(qhttp3.Hijacker); ok {
+				hj.Connection().CloseWithError(0x100, "")
+			}
+			return
+		}
+		body, err := io.ReadAll(r.Body)
+		if err != nil {
+			return
+		}
+		ruri := r.RequestURI
+		if ruri == "" {
+			ruri = r.URL.RequestURI()
+		}
+		seen := &c01RpSeen{method: r.Method, ruri: ruri, host: r.Host, hdr: map[string][]string{}, body: body}
+		for k, vs := range r.Header {
+			lk := strings.ToLower(k)
+			if lk == "content-length" {
+				seen.cl = strings.Join(vs, ",")
+				continue
+			}
+			seen.hdr[lk] = append(seen.hdr[lk], vs...)
+		}
+		p.mu.Lock()
+		p.accepted = append(p.accepted, seen)
+		p.mu.Unlock()
+		w.WriteHeader(200)
+	})
+	srv := &qhttp3.Server{Handler: h, TLSConfig: qhttp3.ConfigureTLSConfig(&tls.Config{Certificates: certs})}
+	go srv.Serve(pc)
+	p.addr = pc.LocalAddr().String()
+	p.stop = func() { srv.Close(); pc.Close() }
+	return p
+}
+
 func (p *c01FaultPeer) serveH1(c net.Conn) {
 	defer c.Close()
 	br := bufio.NewReaderSize(c, 64<<10)
@@ -380,6 +447,9 @@ func c01GenReplay(r *rand.Rand, proto string, i int) *c01ReplayCase {
 		if proto == "h2" {
 			f.kind = verifh.Pick(r, []string{"refused", "refused", "goaway", "goaway", "proto", "cancel"})
 			f.after = verifh.Pick(r, []int{0, 1, 1, 2, 3, 5, 1000})
+		} else if proto == "h3" {
+			f.kind = "connclose"
+			f.after = verifh.Pick(r, []int{0, 0, 1, len(tc.body) / 2, len(tc.body)})
 		} else {
 			f.kind = verifh.Pick(r, []string{"close", "close", "reset"})
 			hdr := 150
@@ -402,19 +472,30 @@ func (tc *c01ReplayCase) human() string {
 }
 
 // c01FireReplay runs one case through the public API against the fault peer.
-func c01FireReplay(t testing.TB, p *c01FaultPeer, tc *c01ReplayCase, dir string) (status int, err error) {
+func c01FireReplay(t testing.TB, p *c01FaultPeer, base string, tc *c01ReplayCase, dir string) (status int, err error) {
 	c := C().SetTimeout(15 * time.Second)
 	switch tc.proto {
 	case "h1":
 		c.EnableForceHTTP1()
 	case "h2":
 		c.EnableForceHTTP2().EnableH2C()
+	case "h3":
+		c.EnableInsecureSkipVerify().EnableForceHTTP3()
+		if c.Transport.t3 != nil {
+			c.Transport.t3.TLSClientConfig = &tls.Config{InsecureSkipVerify: true}
+		}
 	}
 	c.httpClient.Jar = nil
 	defer c.GetTransport().CloseIdleConnections()
-	base := "http://" + p.ln.Addr().String()
-	if tc.proto == "h1" {
-		// make the connection a REUSED one: net/http replays only on those
+	if tc.proto == "h3" {
+		defer func() {
+			if c.Transport.t3 != nil {
+				c.Transport.t3.Close()
+			}
+		}()
+	}
+	if tc.proto == "h1" || tc.proto == "h3" {
+		// make the connection a REUSED (cached) one: the transports replay only on those
 		if resp, err := c.R().Get(base + "/prime"); err != nil || resp.StatusCode != 200 {
 			return 0, fmt.Errorf("priming request failed: %v", err)
 		}
@@ -533,15 +614,28 @@ func TestVerif_C01_replay(t *testing.T) {
 	r := s.Rand()
 	dir := t.TempDir()
 	n := verifh.N(120, 900)
-	for _, proto := range []string{"h2", "h1"} {
-		p := c01StartFaultPeer(t, proto)
-		for i := 0; i < n; i++ {
+	for _, proto := range []string{"h2", "h1", "h3"} {
+		var p *c01FaultPeer
+		var base, hostport string
+		stop := func() {}
+		if proto == "h3" {
+			p3 := c01StartH3FaultPeer(t)
+			p, base, hostport, stop = &p3.c01FaultPeer, "https://"+p3.addr, p3.addr, p3.stop
+		} else {
+			p = c01StartFaultPeer(t, proto)
+			base, hostport, stop = "http://"+p.ln.Addr().String(), p.ln.Addr().String(), p.stop
+		}
+		cases := n
+		if proto == "h3" {
+			cases = n / 2 // every case costs a QUIC handshake
+		}
+		for i := 0; i < cases; i++ {
 			tc := c01GenReplay(r, proto, i)
 			p.initWin, p.maxFrame = tc.initWin, tc.maxFrame
 			id := fmt.Sprintf("replay-%s-%d", proto, i)
 			s.Begin(id, tc.human())
 			t0 := time.Now()
-			status, err := c01FireReplay(t, p, tc, dir)
+			status, err := c01FireReplay(t, p, base, tc, dir)
 			if d := time.Since(t0); d > 900*time.Millisecond {
 				s.Count(proto + ":slow>0.9s")
 				t.Logf("slow case (%v): %s err=%v", d, tc.human(), err)
@@ -557,7 +651,7 @@ func TestVerif_C01_replay(t *testing.T) {
 				}
 			}
 			ok, detail := true, ""
-			want := c01ReplayExpectView(tc, p.ln.Addr().String())
+			want := c01ReplayExpectView(tc, hostport)
 			for k, a := range acc {
 				got := c01ReplaySeenView(a)
 				if got != want {
@@ -596,7 +690,7 @@ func TestVerif_C01_replay(t *testing.T) {
 				s.Count(proto + ":replayed")
 				if tc.bodyKind != "none" {
 					s.Count(proto + ":replayed-with-body")
-					if fired[0].frames > 0 && (proto == "h2" && fired[0].bytes > 0 || proto == "h1" && fired[0].frames > 200) {
+					if fired[0].frames > 0 && (proto != "h1" && fired[0].bytes > 0 || proto == "h1" && fired[0].frames > 200) {
 						s.Count(proto + ":replayed-after-body-partly-consumed")
 					}
 				}
@@ -626,10 +720,30 @@ func TestVerif_C01_replay(t *testing.T) {
 				s.Count("h2:model-judged")
 				s.Case("c01h2retry 1 "+mk+" "+strings.Join(toks, ",")+" "+fmt.Sprintf("gen.%d.%d.%d", len(tc.body), tc.ga, tc.gb), impl, true, "", replayed, tc.human())
 			}
+			// HTTP/3: the peer closed the cached connection under the request — judged by the model
+			// of RoundTripper.RoundTripOpt (Req.Replay.h3Run) as well; every kind the model knows.
+			// An application-level close reaches RoundTripOpt as *http3.Error (the single-connection
+			// round tripper replaces the quic.ApplicationError), which isConnectionError does not
+			// recognise: error class "other" — not retried, whatever the request (notes/C01.md).
+			if mk, det := map[string]string{"none": "none", "bytes": "rew", "string": "rew", "func": "rew", "filefunc": "rew", "reader": "one", "file": "one"}[tc.bodyKind]; det && proto == "h3" {
+				idem := tc.idemKey || tc.method == "GET" || tc.method == "HEAD"
+				var toks []string
+				for _, f := range fired {
+					toks = append(toks, fmt.Sprintf("1O:%d", f.bytes))
+				}
+				toks = append(toks, "0A:0")
+				impl := "failed"
+				if success && len(acc) == 1 {
+					impl = "accepted " + c01Blob(acc[0].body)
+				}
+				s.Count("h3:model-judged")
+				s.Case("c01h3retry 1 1 "+mk+" "+c01b(idem)+" "+strings.Join(toks, ",")+" "+fmt.Sprintf("gen.%d.%d.%d", len(tc.body), tc.ga, tc.gb), impl, true, "", replayed, tc.human())
+			}
 		}
-		p.stop()
+		stop()
 	}
 	s.Need(t, "h2:replayed", "h2:replayed-with-body", "h2:replayed-after-body-partly-consumed", "h2:replayed:refused", "h2:replayed:goaway",
-		"h2:failed-after-fault", "h1:replayed", "h1:replayed-with-body", "h1:replayed-after-body-partly-consumed", "h1:failed-after-fault")
+		"h2:failed-after-fault", "h1:replayed", "h1:replayed-with-body", "h1:replayed-after-body-partly-consumed", "h1:failed-after-fault",
+		"h3:failed-after-fault", "h3:model-judged")
 	s.Finish()
 }
